@@ -73,6 +73,14 @@
 //	AesCtrHmacStreaming  key_size not 16/32                                   (same)
 //	PrfBasedDeriver      PRF key not HkdfPrf, HkdfPrf hash not SHA256/512 or key < 32 (FailsAt "factory");
 //	                     derived parameters of a type without key deriver     (FailsAt "use": keyderivation.New works, DeriveKeyset fails)
+//
+// DrawUsable never produces any of the above (nor Lossy keys).  It can still produce RSA-SSA-PSS
+// keys with salt_len 0, which sign and verify but cannot be serialized (Info.NoSerialization).
+//
+// Not generated at all: public keys that no private key constructor accepts (RSA public keys with an
+// exponent other than 65537: NewParameters/NewPublicKey accept odd e in [65537, 2^31-1], every
+// signer/verifier refuses them and NewPrivateKey's self check therefore fails), and SLH-DSA private
+// keys whose PK.root does not belong to SK.seed/PK.seed (slhdsa.NewPrivateKey accepts them).
 package keys
 
 import (
